@@ -454,35 +454,42 @@ def part_b(prop, T, tier, seed, bins, work, replay=None):
     r = validate_traces(traces, work, "all")
     tv_states = r["states"]
     log(f"[B trace] {r['traces']} logs, {r['accepted']} accepted by TLC (RetryTrace, OrderlyMode=reconnect), {len(r['failures'])} rejected")
-    rejected = collections.defaultdict(list)    # sig -> [(script index, failure)]
-    for f in r["failures"]:
-        sig = None
+    def sig_of(f):
         if f.get("invariant"):
-            sig = "clause_" + f["invariant"]
-        elif isinstance(f.get("expected"), dict):
-            sig = f["expected"].get("sig")
-        if not sig:
-            sig = "other:unclassified"
-        rejected[sig].append((f["index"], f))
-    # does the rest of a log with the orderly-close signature conform to the pinned behaviour?
+            return "clause_" + f["invariant"]
+        if isinstance(f.get("expected"), dict) and f["expected"].get("sig"):
+            return f["expected"]["sig"]
+        return "other:unclassified"
+
+    # Every rejected log is validated once more against the pinned behaviour (RetryTrace_pinned: after an orderly close the
+    # client stays on the dead connection until a local connection arrives, then reconnects after 200 ms).  A log that
+    # conforms to it as a whole shows exactly finding orderly_close_no_reconnect, whatever line the property rejected
+    # first (a missing attempt, a client that never gives up because it never noticed, ...); any other log keeps the
+    # signature of its own disagreement.
+    rejected = collections.defaultdict(list)    # sig -> [(script index, failure to show)]
+    first_sig = {f["index"]: sig_of(f) for f in r["failures"]}
     pinned_ok = set()
-    pinned_other = {}
-    if rejected.get(PINNED_SIG):
-        idxs = [i for i, _ in rejected[PINNED_SIG]]
+    if r["failures"]:
+        idxs = [f["index"] for f in r["failures"]]
         rp = validate_traces([traces[i] for i in idxs], work, "pinned", cfg="RetryTrace_pinned")
         tv_states += rp["states"]
         bad = {f["index"]: f for f in rp["failures"]}
-        for j, i in enumerate(idxs):
-            if j in bad:
-                f = bad[j]
-                pinned_other[i] = (f.get("expected") or {}).get("sig") if isinstance(f.get("expected"), dict) else ("clause_" + str(f.get("invariant")))
-            else:
+        for j, f in enumerate(r["failures"]):
+            i = f["index"]
+            if j not in bad:
                 pinned_ok.add(i)
-        log(f"[B trace] {len(idxs)} logs with {PINNED_SIG}: {len(pinned_ok)} conform to the pinned behaviour (RetryTrace_pinned: the client "
-            f"stays on the dead connection until a local connection arrives, then reconnects after 200 ms), {len(pinned_other)} do not")
+                rejected[PINNED_SIG].append((i, f))
+            elif first_sig[i] == PINNED_SIG:
+                g = dict(bad[j], index=i)
+                rejected[sig_of(g) + "_in_pinned_mode"].append((i, g))
+            else:
+                rejected[first_sig[i]].append((i, f))
+        log(f"[B trace] {len(idxs)} rejected logs validated against the pinned behaviour (RetryTrace_pinned): {len(pinned_ok)} conform as a whole "
+            f"(finding {PINNED_SIG}; first rejected for: {dict(collections.Counter(first_sig[i] for i in pinned_ok))}), "
+            f"{len(idxs) - len(pinned_ok)} do not")
     return dict(scripts=scripts, traces=traces, generated=generated, mc_runs=mc_runs, states=states, transitions=transitions,
                 tv_states=tv_states, run_wall=run_wall, accepted=r["accepted"], rejected=rejected,
-                pinned_ok=pinned_ok, pinned_other=pinned_other)
+                pinned_ok=pinned_ok, first_sig=first_sig)
 
 
 # --------------------------------------------------------------------------------------
@@ -531,12 +538,13 @@ def check(prop, tier, seed, replay):
         if B:
             for sig in sorted(B["rejected"]):
                 items = sorted(B["rejected"][sig], key=lambda x: (len(B["traces"][x[0]]), x[0]))
-                conform = [i for i, _ in items if i in B["pinned_ok"]]
                 i0, f0 = items[0]
                 desc = timeline(B["traces"][i0], mark=f0["line_in_trace"])
                 rej_summary[sig] = dict(part="B", logs=len(items), shortest=desc.split("\n")[0].strip(),
                                         rejected_line=f0.get("unmatched"))
-                if sig in known and (sig != PINNED_SIG or len(conform) == len(items)):
+                if sig == PINNED_SIG:
+                    rej_summary[sig]["first_rejected_for"] = dict(collections.Counter(B["first_sig"][i] for i, _ in items))
+                if sig in known:
                     known_met.append(sig)
                     print(f"KNOWN-FINDING: property={prop} {known[sig]['what']}", flush=True)
                     log(f"   [{sig}] {len(items)} logs; shortest:\n{desc}")
@@ -548,11 +556,11 @@ def check(prop, tier, seed, replay):
                     note.append(f"clause violated along the matched behaviour: {f0['invariant']}")
                 note.append(desc)
                 if sig == PINNED_SIG:
-                    note.append(f"{len(conform)} of {len(items)} such logs conform, as a whole, to the pinned behaviour (RetryTrace_pinned.cfg): the client stays "
-                                "on the dead connection until a local connection arrives and reconnects 200 ms after it")
-                    others = {i: s for i, s in B["pinned_other"].items()}
-                    if others:
-                        note.append(f"logs that do not conform to the pinned behaviour either: {sorted(others.items())[:10]}")
+                    note.append(f"all {len(items)} such logs conform, as a whole, to the pinned behaviour (RetryTrace_pinned.cfg): the client stays on the "
+                                "dead connection until a local connection arrives and reconnects 200 ms after it; the property rejected them first for: "
+                                f"{rej_summary[sig]['first_rejected_for']}")
+                elif sig.endswith("_in_pinned_mode"):
+                    note.append(f"this log shows {PINNED_SIG} first (line rejected by the property) and, judged by the pinned behaviour, the disagreement above")
                 path = replay or vlib.save_replay(prop, re.sub(r"[^A-Za-z0-9_]+", "_", sig), B["traces"][i0], note="\n".join(note))
                 violations.append((path, sig, len(items)))
                 log("\n".join(note))
@@ -613,7 +621,7 @@ def check(prop, tier, seed, replay):
                 "'refuse' is a TCP connection closed (FIN or RST) before any HTTP so that the attempt can be time-stamped; a connection refused by "
                 "the operating system is covered by the terminal behaviour 'down', whose attempts are not observable (only the result and its time)",
                 "a non-101 answer to the upgrade request is non-retryable (maybe_retryable.rs); which error variant ends the client is not compared",
-                "lower bounds on time gaps are exact up to 5 ms (time stamps before the server's action / after the observed arrival), 100 ms for a "
+                "lower bounds on time gaps are exact up to 5 ms (time stamps before the server's action / after the observed arrival), 250 ms for a "
                 "stalled handshake (the client's timer starts before the server can observe the connection); upper bounds allow "
                 "handshake_timeout + 1500 ms for a loaded machine, so a delay that is too long by less than that is not detected by timing "
                 "(the retry count still is)",
